@@ -7,6 +7,8 @@ R13.3  mock bodies raise: every path of _transform_to_mock that writes a `def` w
 R13.4  naming agreement: client class / module / Protocol / mock class names are derived from the canonical tag by the
        same functions in all six places
 R13.8  no function of visit/endpoint changes its IROperation (or an alias of one of its attributes) in place: the three renderings see one operation
+R13.12 a stream declared under `default` (the primary response when nothing else is declared) is yielded by the client method: the flag that lets the
+       wildcard arm write the strategy's return evaluates to true for a streaming strategy with a default response that has content
 R13.11 the emitter that renames colliding operation ids in the shared IR runs before every emitter that derives method names from them (the mocks see the final names)
 R13.10 a streamed primary response declared as `2XX` gets its `yield` loop in the client method (Protocol and mock are async generators)   [= R5.18]
 R13.9  the resolver's "this is the model's own module" decision compares the directory / package of the current file, not just its name
@@ -230,6 +232,7 @@ def run(repo: Repo, rep: Report, tier: str) -> None:
 
     rule_range_primary_gets_an_arm(repo, rep, "R13.10")
     rule_mocks_after_the_renamer(repo, rep, "R13.11")
+    rule_streamed_default_is_yielded(repo, rep, "R13.12")
     # ---------------------------------------------------------------- R13.6 one-line sniffing obliges the signature writer
     # A consumer that looks for the return annotation in ONE rendered line (the line that closes the signature) relies on the
     # signature writer putting the whole annotation on that line; a consumer that joins the collected lines does not.
@@ -643,3 +646,63 @@ def rule_mocks_after_the_renamer(repo: Repo, rep, rule: str = "R13.11") -> None:
                 rep.violation(rule, sub, f"{gen.fq}|emitter-before-renamer|{other}",
                               f"`{other}.emit` renders method names from the operations before `{ren}.emit` has renamed the colliding ones in the shared IR: two operations whose ids "
                               "sanitise to one name give one method here and two (`x`, `x_2`) in the modules rendered afterwards - client, Protocol and mock disagree", gen.loc(n.ast))
+
+
+# ------------------------------------------------------------------------------------------------ R13.12 a streamed default response is yielded
+def rule_streamed_default_is_yielded(repo: Repo, rep, rule: str = "R13.12") -> None:
+    """Protocol and mock take the nature of a method from its annotation (`AsyncIterator[...]` whenever the response strategy is streaming); the
+    client method is an async generator only if its body contains a `yield`, and the only writer of yields is the strategy return.  The primary
+    response selector falls back to `default`, so an operation whose stream is declared under `default` alone is a streaming strategy whose only
+    arm is the wildcard arm: the flag under which that arm writes the strategy return must hold there.  The assignments to that flag are
+    evaluated in order for `strategy.is_streaming = True`, a default response with content, return type `AsyncIterator[...]`."""
+    from sa.feval import Unknown, evaluate
+
+    hmod = repo.module("visit.endpoint.generators.response_handler_generator")
+    gen = next((f for q, f in hmod.functions.items() if q.endswith(".generate_response_handling")), None)
+    if gen is None:
+        raise AnalysisError(f"{rule}: anchor vanished: generate_response_handling")
+    # the wildcard arm: `write_line("case _:...")` followed (same block) by `if <flag>: <strategy return> else: raise`
+    flag = None
+    site = None
+    for st in own_nodes(gen.node):
+        if isinstance(st, ast.If) and isinstance(st.test, ast.Name) and any(
+                isinstance(c.func, ast.Attribute) and c.func.attr == "_write_strategy_based_return" for b in st.body for c in calls_in(b)) and any(
+                isinstance(c.func, ast.Attribute) and c.func.attr == "write_line" and c.args and (const_str(c.args[0]) or "").lstrip().startswith("raise ") for b in st.orelse for c in calls_in(b)):
+            flag, site = st.test.id, st
+    if flag is None:
+        raise AnalysisError(f"{rule}: the wildcard arm `if <flag>: <strategy return> else: raise` of generate_response_handling was not found (anchor)")
+    L = Locals(gen.node)
+    dr = [v for _, v, _ in L.defs.get("default_response", []) if v is not None]
+    env = {"strategy.is_streaming": True, "strategy.return_type": "AsyncIterator[bytes]", "default_response": {"content": {"text/event-stream": 1}, "status_code": "default"},
+           "default_response.content": {"text/event-stream": 1}, "strategy.response_schema": None}
+    # assignments to the flag in source order, each with the conjunction of the `if` tests around it (inside the function body)
+    assigns = sorted([st for st in own_nodes(gen.node) if isinstance(st, (ast.Assign, ast.AnnAssign)) and st.value is not None and any(
+        isinstance(t, ast.Name) and t.id == flag for t in (st.targets if isinstance(st, ast.Assign) else [st.target]))], key=lambda x: x.lineno)
+    if not assigns:
+        raise AnalysisError(f"{rule}: no assignment to `{flag}` found (anchor)")
+    val = None
+    try:
+        for st in assigns:
+            if st.lineno > site.lineno:
+                continue
+            holds = True
+            p, child = parent(st), st
+            while p is not None and p is not gen.node:
+                if isinstance(p, ast.If):
+                    t = bool(evaluate(p.test, {**env, flag: val}))
+                    in_body = any(child is b or any(child is y for y in ast.walk(b)) for b in p.body)
+                    if t != in_body:
+                        holds = False
+                child, p = p, parent(p)
+            if holds:
+                val = bool(evaluate(st.value, {**env, flag: val}))
+    except Unknown as e:
+        rep.ok(rule, f"{hmod.relpath}:generate_response_handling `{flag}` for a streamed default response", f"not evaluated ({e}): the flag depends on values outside the modelled inputs", gen.loc(site))
+        return
+    sub = f"{hmod.relpath}:generate_response_handling `{flag}` for a streamed default response"
+    if val:
+        rep.ok(rule, sub, "true: the wildcard arm writes the streaming loop, the client method is an async generator like its Protocol stub and mock", gen.loc(site))
+    else:
+        rep.violation(rule, sub, f"{gen.fq}|streamed-default-not-yielded",
+                      f"`{flag}` is false for a streaming strategy whose stream is declared under `default`: the wildcard arm raises instead of writing the `yield` loop, no arm of the method "
+                      "yields - the client method is a coroutine function while Protocol and mock (decided by the `AsyncIterator` annotation) are async generators", gen.loc(site))
